@@ -122,7 +122,7 @@ pub fn c12(args: &Args) -> Acc {
     }
     // ---------------------------------------------------------- display calls
     if args.want_stage("calls") {
-        let n = args.n(1500, 40_000);
+        let n = args.n(6000, 60_000);
         let effs = effects(args);
         let acc = par_cases(n, args.threads, args.case, |idx, a| {
             let mut rng = Rng::for_case(args.seed, "C12/calls", &args.tier, idx);
